@@ -51,6 +51,9 @@ func vNewSession(budget int, auth []byte) *vSession {
 	s.relay = newRelay(sid, budget)
 	s.relay.delFail = vParam("delfail", 0) != 0
 	s.relay.refuseOpt = vParam("refuse", 0) != 0
+	if vParam("junk", 0) != 0 {
+		s.relay.junkAt = vIntRange("relay_truncates_kth_frame_at_new_rendezvous", 0, vParam("junk", 0))
+	}
 	if budget > 0 {
 		s.relay.skip = vIntRange("relay_skip", 0, vParam("maxskip", 0))
 		s.relay.texts = vParam("errtexts", 0) != 0
